@@ -47,6 +47,8 @@ type vClient struct {
 	lifetime    uint32
 	writeFails  bool
 	txFails     bool // a transaction may fail before anything is sent (base socket closed)
+	txGate      chan struct{} // if set: a (waited-for) transaction stays in flight until the harness sends a token
+	inFlight    int           // transactions waiting for their token
 }
 
 func (c *vClient) WriteTo(data []byte, to net.Addr) (int, error) {
@@ -64,6 +66,11 @@ func (c *vClient) PerformTransaction(msg *stun.Message, to net.Addr, dontWait bo
 	react := c.fixed
 	if react < 0 {
 		react = vIntRange(0, 4)
+	}
+	if c.txGate != nil && !dontWait {
+		c.inFlight++
+		<-c.txGate // the request is on the wire, the response has not arrived yet
+		c.inFlight--
 	}
 	c.events = append(c.events, vEvent{kind: 'T', method: msg.Type.Method, react: react, raw: append([]byte{}, msg.Raw...), to: to})
 	if dontWait {
